@@ -64,6 +64,30 @@ func TestC01Resub(t *testing.T) {
 	}, func(st *stats) bool { return st.nontrivial() && st.resubscribed })
 }
 
+// TestC01Reach: targets configured with SEVERAL addresses of which only one answers gNMI - the others refuse the
+// connection, accept it and stay silent, close it at once, answer without TLS, abort the TLS handshake - in every order,
+// also listed twice and as address chains; the collector runs with a short -dial_timeout. Same oracle as every part.
+// Non-trivial additionally demands a target with a dead address besides its live one.
+func TestC01Reach(t *testing.T) {
+	runPart(t, "reach", func(rt *rapid.T) *Scenario { return genReachScenario(rt) }, func(st *stats) bool { return st.nontrivial() && st.multiAddr })
+}
+
+var (
+	maxCount = flag.Int("c01.maxcount", 20000, "most updates in one notification of the size part")
+	maxNoti  = flag.Int("c01.maxnoti", 10, "largest notification (MiB) the size part makes out of many updates")
+)
+
+// TestC01Size: scripts with one or two unusually large SubscribeResponses - a few very large values (more than 4 MiB,
+// sometimes more than 8 MiB in one response; plain or as an atomic container), thousands of updates in one notification,
+// rarely a single value above 4 MiB - in the sync burst and after it, with observers streaming meanwhile.
+// Same oracle as every part. Non-trivial = a target did send a single response above 4 MiB or with >= 1000 updates
+// (measured where it is sent) and the case has a delete after the sync.
+func TestC01Size(t *testing.T) {
+	runPart(t, "size", func(rt *rapid.T) *Scenario {
+		return genSizeScenario(rt, sizeParams{maxCount: *maxCount, maxBytes: *maxNoti << 20})
+	}, func(st *stats) bool { return st.bigResponse() && st.deleteAfterSync })
+}
+
 // TestC01Quiet: targets that say nothing for 35-45 s of REAL time while plain client-library applications
 // (connection dialled by the library, short Query.Timeout) stay subscribed through a collector that runs
 // without periodic metadata; then the targets' state changes. Same oracle as every part. Non-trivial
